@@ -1278,6 +1278,28 @@ def one_case(ctx, base, script, with_deepcopy=True):
     if with_deepcopy:
         ctx.count('clause:deepcopy-copy')
         judge_pair(ctx, same, old, copy.deepcopy(old), 'identical-deepcopy', witness)
+        # ... also when elements without labels / capacities carry the default value objects (Labels(), Capacities()) on BOTH sides
+        ctx.count('clause:identical-copy-with-default-value-objects')
+        a = copy.deepcopy(old)
+        put_default_value_objects(a)
+        judge_pair(ctx, same, a, copy.deepcopy(a), 'identical-deepcopy-default-objects', witness)
+
+
+def put_default_value_objects(node):
+    """Every element of the sliver tree that has no labels / capacities gets the all-default value object instead of None."""
+    from fim.slivers.capacities_labels import Labels, Capacities
+
+    def visit(sl):
+        if sl.get_labels() is None:
+            sl.set_labels(Labels())
+        if sl.get_capacities() is None:
+            sl.set_capacities(Capacities())
+        for attr, sub in (('attached_components_info', 'devices'), ('network_service_info', 'network_services'), ('interface_info', 'interfaces')):
+            info = getattr(sl, attr, None)
+            if info is not None:
+                for x in getattr(info, sub).values():
+                    visit(x)
+    visit(node)
 
 
 def run(ctx):
